@@ -3,6 +3,7 @@
   Model: `Model/Split.lean` (hand model of longsms.go, tied by correspondence).
 -/
 import SmsVerif.Lemmas.Split
+import SmsVerif.Lemmas.Pack
 import SmsVerif.Gen.Tables
 
 namespace SmsVerif.C06
@@ -46,6 +47,19 @@ theorem C06_split_concat_packed (d : List Nat) (per ref : Nat) (hper : 0 < per)
     · rw [slices_flatten d per 0 _ hp]; simp
     · rw [withHeaders_strip]
 
+/-- **packed parts decode on their own**: every part of the packed path, header removed, is the
+    TS 23.038 packing of its slice of septets, so a receiver that knows the septet count of the part
+    reads exactly that slice; the slices concatenate to the message -/
+theorem C06_packed_parts_readable (d : List Nat) (hd : ∀ x ∈ d, x < 128) (per ref : Nat) (hper : 0 < per)
+    (parts : List (List Nat)) (h : splitUnits gsmBoundary d per ref Gsm7.packGo = .ok parts) :
+    ∃ sl : List (List Nat), sl.flatten = d ∧ parts.map (List.drop 6) = sl.map Gsm7.packSpec ∧
+      ∀ s ∈ sl, Gsm7.unpackSpec s.length (Gsm7.packSpec s) = s := by
+  obtain ⟨sl, hfl, _, hparts⟩ := C06_split_concat_packed d per ref hper parts h
+  have hs : ∀ s ∈ sl, ∀ x ∈ s, x < 128 := fun s hs x hx => hd x (by rw [← hfl]; exact List.mem_flatten.2 ⟨s, hs, hx⟩)
+  refine ⟨sl, hfl, ?_, fun s hsm => Gsm7.unpackSpec_packSpec s (hs s hsm)⟩
+  rw [hparts]
+  exact List.map_congr_left (fun s hsm => Gsm7.packGo_eq_spec s (hs s hsm))
+
 /-- **single_when_fits** : a message that fits one SMS is returned as one part without a header -/
 theorem C06_single_when_fits (bnd : Boundary) (d : List Nat) (maxLen per ref : Nat) (h : d.length ≤ maxLen) :
     splitMessage bnd d maxLen per ref = .ok [d] := by
@@ -67,6 +81,7 @@ open SmsVerif.C06
 #print axioms C06_constants
 #print axioms C06_split_concat
 #print axioms C06_split_concat_packed
+#print axioms C06_packed_parts_readable
 #print axioms C06_single_when_fits
 #print axioms C06_split_when_long
 end
